@@ -224,6 +224,9 @@ func cspFor(shape string, rng *rand.Rand) cspConcrete {
 		c.header = "default-src 'self'; style-src 'self' 'nonce-" + s1 + "'; img-src data:"
 	case "nononce":
 		c.header = "default-src 'none'; script-src 'self' https://cdn.example.com 'unsafe-inline'; connect-src 'self'"
+	case "defaultfirst":
+		// a nonce in default-src (which does not govern scripts once script-src is present) in front of script-src
+		c.header = "default-src 'self' 'nonce-" + s1 + "'; script-src 'self' 'nonce-" + n1 + "'; img-src *"
 	case "afterother":
 		c.header = "style-src 'nonce-" + s1 + "'  ;  font-src 'self';script-src   'nonce-" + n1 + "'"
 	default:
